@@ -249,7 +249,7 @@ def run(ctx):
     tgen_bad.setdefault(c.idx, []).append(m)
     if len(tgen_bad) <= 5:
       exp = ctx.coq_eval('gexp', imports, shape_defs, [f'leaf_ranges T{c.idx}', f'range_tree T{c.idx} 0'])
-      ctx.violation(f'C06:tgen:{m}:layout', f'generated {m} of a struct does not have the layout/coverage the property demands (shape in replay)',
+      ctx.violation(f'C06:tgen:{m}:layout:' + hashlib.sha1(json.dumps(c.spec()).encode()).hexdigest()[:10], f'generated {m} of a struct does not have the layout/coverage the property demands (shape in replay)',
                     {'shape': c.spec(), 'method': m, 'source': c.src[m], 'parsed': g_cases[i][:3000], 'expected_leaf_ranges': exp[0][:3000],
                      'expected_slice_tree': exp[1][:3000]}, found_input=False)
   ctx.sample({'kind': 'tgen', 'shape': classes[4].spec(), 'to_bits': classes[4].src['to_bits'], 'from_bits': classes[4].src['from_bits'][-400:]})
@@ -340,10 +340,10 @@ def run(ctx):
           if op in ('clone', 'deepcopy'):
             cpy = a.clone() if op == 'clone' else copy.deepcopy(a)
             if type(cpy) is not c.pycls or not (cpy == a):
-              viol_value(op, c, f'{op}() is not equal to the original', {'value': va})
+              viol_value(op + '-neq', c, f'{op}() is not equal to the original', {'value': va})
             shared = set(ids(s, a, [])) & set(ids(s, cpy, []))
             if shared:
-              viol_value(op, c, f'{op}() shares {len(shared)} sub-object(s) with the original', {'value': va})
+              viol_value(op + '-shared', c, f'{op}() shares {len(shared)} sub-object(s) with the original', {'value': va})
             tgt = cpy if who else a
             # the leaf written must differ from BOTH current values (they are equal here)
             operator.imatmul(leaf_obj(s, tgt, p), newv)
@@ -357,7 +357,7 @@ def run(ctx):
           elif op == 'imatmul':
             a @= bobj
             if set(ids(s, a, [])) & set(ids(s, bobj, [])):
-              viol_value(op, c, '@= left the destination sharing sub-objects with the source', {'value': va, 'other': vb})
+              viol_value(op + '-shared', c, '@= left the destination sharing sub-objects with the source', {'value': va, 'other': vb})
             tgt = a if who else bobj
             ub = int(leaf_obj(s, tgt, p).uint()); u = (ub + 1) % (1 << w); newv = mk_bits(w)(u)
             operator.imatmul(leaf_obj(s, tgt, p), newv)
@@ -369,7 +369,7 @@ def run(ctx):
             a <<= bobj
             a._flip()
             if set(ids(s, a, [])) & set(ids(s, bobj, [])):
-              viol_value(op, c, '<<= / _flip left the destination sharing sub-objects with the source', {'value': va, 'other': vb})
+              viol_value(op + '-shared', c, '<<= / _flip left the destination sharing sub-objects with the source', {'value': va, 'other': vb})
             tgt = a if who else bobj
             ub = int(leaf_obj(s, tgt, p).uint()); u = (ub + 1) % (1 << w); newv = mk_bits(w)(u)
             operator.imatmul(leaf_obj(s, tgt, p), newv)
